@@ -38,6 +38,7 @@ import (
 	"sort"
 	"strings"
 	"sync"
+	"sync/atomic"
 	"time"
 	"unicode/utf8"
 
@@ -48,6 +49,7 @@ import (
 )
 
 var cfgEnvMu sync.Mutex
+var cfgSeq atomic.Int64
 
 type cfgSetting struct {
 	flag   string
@@ -168,7 +170,7 @@ func settingsOf(o *options.Options) []cfgSetting {
 	leg("entra-id-allowed-tenant", pr.MicrosoftEntraIDConfig.AllowedTenants)
 	leg("prefer-email-to-user", o.LegacyPreferEmailToUser)
 	// a deprecated twin left over in an old configuration: documented to count only while the current option is unset
-	if pr.CodeChallengeMethod != "" && hash64(pr.ClientID+pr.OIDCConfig.IssuerURL)%2 == 0 {
+	if pr.CodeChallengeMethod != "" && cfgSeq.Load()%2 == 0 {
 		other := "plain"
 		if pr.CodeChallengeMethod == "plain" {
 			other = "S256"
@@ -441,7 +443,9 @@ func (e *testEnv) viaConfigPath(o *options.Options) *options.Options {
 	ss := settingsOf(o)
 	form := os.Getenv("VERIF_CFGPATH")
 	if form == "" {
-		h := hash64(fmt.Sprintf("%d|%v", e.c.seed, ss))
+		// (from the seed, the suite and a counter — not from the values, which hold ports and temporary paths that differ from run to run:
+		// the same seed takes the same forms)
+		h := hash64(fmt.Sprintf("%d|%s|%d", e.c.seed, e.c.name, cfgSeq.Add(1)))
 		form = []string{"direct", "flags", "toml", "alpha", "alpha-toml"}[h%5]
 	}
 	if form == "direct" {
@@ -539,7 +543,8 @@ func (e *testEnv) viaConfigPath(o *options.Options) *options.Options {
 						n++
 					}
 				}
-				if n == 1 && !strings.ContainsAny(val, ", \t\"") && hash64(fmt.Sprintf("env|%d|%s|%s", e.c.seed, e.c.name, name))%4 == 0 {
+				// (an EMPTY environment variable is "not set" to viper: an explicitly empty value can only be written as a flag or in the file)
+				if n == 1 && val != "" && !strings.ContainsAny(val, ", \t\"") && hash64(fmt.Sprintf("env|%d|%s|%s", e.c.seed, e.c.name, name))%4 == 0 {
 					key := "OAUTH2_PROXY_" + strings.ToUpper(tomlKey(name))
 					os.Setenv(key, val)
 					envSet = append(envSet, key+"="+val)
